@@ -19,7 +19,8 @@ package semantic
 //@ pure func distinctFields(s *parser.StructLike) bool { return forall a, b int :: 0 <= a && a < b && b < len(s.Fields) ==> s.Fields[a].ID != s.Fields[b].ID && s.Fields[a].Name != s.Fields[b].Name }
 //@ pure func atMostOneDefault(u *parser.StructLike) bool { return forall a, b int :: 0 <= a && a < b && b < len(u.Fields) ==> !(u.Fields[a].Default != nil && u.Fields[b].Default != nil) }
 //@ pure func enumOK(e *parser.Enum) bool { return (forall a, b int :: 0 <= a && a < b && b < len(e.Values) ==> e.Values[a].Name != e.Values[b].Name && e.Values[a].Value != e.Values[b].Value) && (forall a int :: 0 <= a && a < len(e.Values) ==> -2147483648 <= e.Values[a].Value && e.Values[a].Value <= 2147483647) }
-//@ pure func funcOK(f *parser.Function) bool { return (f.Oneway ==> f.Void && len(f.Throws) == 0) }
+//@ pure func distinctFL(fs []*parser.Field, n int) bool { return forall a, b int :: 0 <= a && a < b && b < n ==> fs[a].ID != fs[b].ID && fs[a].Name != fs[b].Name }
+//@ pure func funcOK(f *parser.Function) bool { return (f.Oneway ==> f.Void && len(f.Throws) == 0) && distinctFL(f.Arguments, len(f.Arguments)) && distinctFL(f.Throws, len(f.Throws)) }
 //@ pure func svcOK(s *parser.Service) bool { return (forall a, b int :: 0 <= a && a < b && b < len(s.Functions) ==> s.Functions[a].Name != s.Functions[b].Name) && (forall a int :: 0 <= a && a < len(s.Functions) ==> funcOK(s.Functions[a])) }
 
 //@ func (c *checker) CheckStructLikes(t *parser.Thrift) (warns []string, err error)
@@ -71,8 +72,12 @@ package semantic
 //@   loop 1.1 invariant forall n string :: defined[n] ==> exists k int :: 0 <= k && k < $i && svc.Functions[k].Name == n
 //@   loop 1.1 invariant forall a, b int :: 0 <= a && a < b && b < $i ==> svc.Functions[a].Name != svc.Functions[b].Name
 //@   loop 1.1 invariant forall a int :: 0 <= a && a < $i ==> funcOK(svc.Functions[a])
-//@   loop 1.1.1 invariant err == nil
-//@   loop 1.1.2 invariant err == nil
+//@   loop 1.1.1 invariant err == nil && distinctFL(f.Arguments, $i)
+//@   loop 1.1.1 invariant forall k int :: 0 <= k && k < $i ==> argIDs[f.Arguments[k].ID] && argNames[f.Arguments[k].Name]
+//@   loop 1.1.1 invariant (forall x int32 :: argIDs[x] ==> exists k int :: 0 <= k && k < $i && f.Arguments[k].ID == x) && (forall n string :: argNames[n] ==> exists k int :: 0 <= k && k < $i && f.Arguments[k].Name == n)
+//@   loop 1.1.2 invariant err == nil && distinctFL(f.Arguments, len(f.Arguments)) && distinctFL(f.Throws, $i)
+//@   loop 1.1.2 invariant forall k int :: 0 <= k && k < $i ==> throwIDs[f.Throws[k].ID] && throwNames[f.Throws[k].Name]
+//@   loop 1.1.2 invariant (forall x int32 :: throwIDs[x] ==> exists k int :: 0 <= k && k < $i && f.Throws[k].ID == x) && (forall n string :: throwNames[n] ==> exists k int :: 0 <= k && k < $i && f.Throws[k].Name == n)
 
 // ---- name splitting (C05) ----
 
